@@ -41,6 +41,33 @@ from typing import Iterable
 
 import numpy as np
 import sympy as sym
+from sympy.printing.str import StrPrinter
+
+
+class _BlackbirdPrinter(StrPrinter):
+    """Prints SymPy expressions with Blackbird's binding order, in which a unary
+    minus binds tighter than ``**`` (``-a**2`` is ``(-a)**2``)."""
+
+    def _print_Mul(self, expr):
+        res = super()._print_Mul(expr)
+        if res.startswith("-"):
+            # find the end of the first factor; if it is raised to a
+            # power, the minus sign must apply to the whole product
+            depth = 0
+            for idx in range(1, len(res)):
+                char = res[idx]
+                if char in "([{":
+                    depth += 1
+                elif char in ")]}":
+                    depth -= 1
+                elif depth == 0 and char in "*/ ":
+                    if res[idx:idx + 2] == "**":
+                        return "-({})".format(res[1:])
+                    break
+        return res
+
+    def _print_ImaginaryUnit(self, expr):
+        return "1j"
 
 
 def _expr_to_blackbird(expr):
@@ -50,7 +77,7 @@ def _expr_to_blackbird(expr):
     string would also hit parameter names contained in other names or in printed floats.
     """
     braced = {p: sym.Symbol("{" + str(p) + "}") for p in expr.free_symbols}
-    return str(expr.xreplace(braced))
+    return _BlackbirdPrinter().doprint(expr.xreplace(braced))
 
 
 def _scalar_to_blackbird(v):
@@ -455,6 +482,10 @@ class BlackbirdProgram:
                         # argument contains free parameters
                         args.append(_expr_to_blackbird(v))
 
+                    elif hasattr(v, "regrefs") and isinstance(getattr(v, "expr", None), sym.Expr):
+                        # register transform
+                        args.append(_BlackbirdPrinter().doprint(v.expr))
+
                     else:
                         # anything that doesn't need to be dealt with as a special case,
                         # i.e., booleans, ints, floats.
@@ -493,6 +524,10 @@ class BlackbirdProgram:
                     elif isinstance(v, sym.Expr):
                         # keyword argument contains free parameters
                         kwargs.append("{}={}".format(k, _expr_to_blackbird(v)))
+
+                    elif hasattr(v, "regrefs") and isinstance(getattr(v, "expr", None), sym.Expr):
+                        # register transform
+                        kwargs.append("{}={}".format(k, _BlackbirdPrinter().doprint(v.expr)))
 
                     elif isinstance(v, list):
                         # list-valued keyword argument; format the elements one by one
